@@ -23,6 +23,9 @@ def base_scenarios(rng, n):
         sc["sleeper_kind"] = ["async", "async", "sync"][k % 3]
         if k % 5 == 0:
             sc["op_two_susp"] = True
+        if k % 6 == 1:
+            # attempt_timeout_s configured (never fires): the operation runs under asyncio.wait_for / a worker thread
+            sc["cfg"]["attempt_timeout"] = 30.0
         c = sc["calls"][0]
         if rng.random() < 0.7:
             for i in range(len(c["outcomes"]) - 1):
@@ -78,7 +81,7 @@ def enumerate_faults(ctx, base, entry, rng, tier, stats):
             _run(ctx, sc, entry, stats, "sleeper-raises-cancellation")
             points += 1
     # throws at every suspension point of the async run
-    if entry.startswith("a"):
+    if entry.startswith("a") and not base["cfg"].get("attempt_timeout"):
         ctx.mx("max_suspension_points", clean.suspensions)
         tags = []
         for sp in range(clean.suspensions):
@@ -87,6 +90,8 @@ def enumerate_faults(ctx, base, entry, rng, tier, stats):
                 _run(ctx, sc, entry, stats, "throw-at-suspension")
                 points += 1
     ctx.inc("injection_points", points)
+    if base["cfg"].get("attempt_timeout"):
+        ctx.inc("attempt_timeout_bases")
     return clean
 
 
@@ -121,6 +126,7 @@ def conclude(ctx):
         "stops:fault": (ctx.cnt["stops:fault"], 100),
         "stops:thrown": (ctx.cnt["stops:thrown"], 500),
         "distinct (entry, injection kind) cells": (len(ctx.sets["cells"]), 50),
+        "attempt_timeout_bases": (ctx.cnt["attempt_timeout_bases"], 20),
     }
     return dict(
         rule=(
